@@ -31,6 +31,8 @@ type c08Case struct {
 	Corrupt   string `json:"corrupt"`
 	CorruptAt int    `json:"corrupt_at"`
 	EOFData   bool   `json:"eof_with_data"`
+	// CapSeed selects which reader buffers have spare capacity behind their length
+	CapSeed int `json:"cap_seed,omitempty"`
 }
 
 func genC08(t *rapid.T) c08Case {
@@ -68,6 +70,7 @@ func genC08(t *rapid.T) c08Case {
 	if c.Kind == "session" {
 		c.Writers = 1
 	}
+	c.CapSeed = rapid.IntRange(0, 4).Draw(t, "capseed")
 	return c
 }
 
@@ -243,14 +246,16 @@ func checkC08PacketConn(c c08Case, o *vstat.Outcome) *vstat.Violation {
 	go func() {
 		defer close(done)
 		for i := 0; ; i++ {
-			buf := make([]byte, max(c.Bufs[i%len(c.Bufs)], 1))
+			// the caller's buffer is often a short window of a larger array (len < cap)
+			bl := max(c.Bufs[i%len(c.Bufs)], 1)
+			buf := make([]byte, bl, bl+[]int{0, 0, 7, 64, 4096}[(i+c.CapSeed)%5])
 			n, addr, err := rconn.ReadFrom(buf)
 			if err != nil && !errors.Is(err, io.ErrShortBuffer) {
 				got = append(got, rd{err: err})
 				return
 			}
 			_ = addr
-			got = append(got, rd{data: buf[:n], n: n, err: err})
+			got = append(got, rd{data: buf[:min(max(n, 0), len(buf))], n: n, err: err})
 			if i > len(c.Sizes)+5 {
 				return
 			}
